@@ -7,7 +7,7 @@ use crate::common::ArgOption;
 use crate::common::{debug, error, info, warn};
 use boa_engine::context::ContextBuilder;
 use boa_engine::object::builtins::{JsArray, JsMap};
-use boa_engine::object::{IntegrityLevel, ObjectInitializer};
+use boa_engine::object::{IntegrityLevel, JsObject, ObjectInitializer};
 use boa_engine::property::{Attribute, PropertyDescriptor, PropertyKey};
 use boa_engine::value::Type;
 use boa_engine::{js_string, native_function::NativeFunction, Context, JsBigInt, JsError, JsValue, Source};
@@ -90,12 +90,13 @@ fn data_value_to_js(data: &Data, context: &mut Context) -> JsValue {
             JsValue::from(js_array)
         }
         Data::Map(v) => {
-            let js_map = JsMap::new(context);
+            // A plain object (the inverse of js_to_data_value), so that members are accessible as "o.key".
+            let js_object = JsObject::with_object_proto(context.intrinsics());
             for (key, d) in v {
                 let djs = data_value_to_js(&d.lock().unwrap(), context);
-                let _ = js_map.set(js_string!(key.clone()), djs, context);
+                let _ = js_object.create_data_property_or_throw(js_string!(key.clone()), djs, context);
             }
-            JsValue::from(js_map)
+            JsValue::from(js_object)
         }
         Data::Error(_error) => JsValue::Null,
         Data::Source(source) => JsValue::String(js_string!(source.source.clone())),
